@@ -99,6 +99,7 @@ def check_tap(name, acfg, hist, stages, out, cov):
         allowed_nodes.add(c2)
     acts = [(h.timestep, h) for h in hist if h.action != "do-nothing"]
     cov.inc("executions_observed", len(acts))
+    cov.inc("tap_actions_failed", sum(1 for _, h in acts if h.response.status != "success"))
     if acts and acts[0][0] < start - v:
         out.append((f"acts-before-start/{typ}", f"{name}: first action at step {acts[0][0]}, start_step={start} variance={v}"))
     for (a, _), (b, _) in zip(acts, acts[1:]):
@@ -245,7 +246,7 @@ class Check:
         "final implemented kill-chain stage: TAP001 PAYLOAD, TAP003 EXPLOIT (later enum members are not implemented stages); TAP agents may act from their starting nodes and the configured C2 server",
         "max_executions is judged for periodic-agent only (the DM agent does not document it)",
     ]
-    min_monitor = {"kill_chains_completed": 2, "executions_observed": 300, "gaps_measured": 200, "probabilistic_choices": 2000, "agents_with_zero_probability_entries": 5}
+    min_monitor = {"kill_chains_completed": 2, "executions_observed": 300, "gaps_measured": 200, "tap_actions_failed": 40, "probabilistic_choices": 2000, "agents_with_zero_probability_entries": 5}
     case_timeout = {"quick": 2400, "thorough": 10800}
 
     def cases(self, tier, seed):
@@ -261,6 +262,14 @@ class Check:
         for i in range(3 if q else 10):
             specs.append({"name": f"uc7-tap003-{i}", "src": ["shipped", "uc7_config_tap003.yaml"], "seed": seed * 100 + i, "policy": pols[(i + 3) % 4],
                           "steps": 60 if q else 128, "episodes": 1 if q else 2})
+        # blue interferes with exactly the nodes the attacker is using, so that attacker actions fail in the middle of the chain
+        for i in range(8 if q else 24):
+            f = ["uc7_config.yaml", "uc7_config_tap003.yaml"][i % 2]
+            specs.append({"name": f"{f}-disrupt-{i}", "src": ["shipped", f], "seed": seed * 100 + 70 + i, "policy": "disrupt", "steps": 90 if q else 128,
+                          "episodes": 1 if q else 2, "clean": [None, None, "repeat", "once"][i % 4]})
+        for i in range(2 if q else 8):
+            specs.append({"name": f"uc2-disrupt-{i}", "src": ["shipped", "data_manipulation.yaml"], "seed": seed * 100 + 80 + i, "policy": "disrupt",
+                          "steps": 100 if q else 128, "episodes": 2})
         # undisturbed runs (blue idles) so that the kill chains run to completion, with and without repeating
         for i, clean in enumerate(["once", "repeat"]):
             specs.append({"name": f"uc7-tap001-complete-{clean}", "src": ["shipped", "uc7_config.yaml"], "seed": seed * 100 + 50 + i, "policy": "idle",
